@@ -1096,6 +1096,53 @@ def sent_annotation_value(repo, tier="quick"):
 # PROV.fragment-attrs (C14): per-atom annotations are applied after the defaults, so they win
 # ---------------------------------------------------------------------------
 
+def _fragment_attrs_per_node(fi, P, oid, pname):
+    """the same annotation step written as one loop over the nodes; None if there is no such loop"""
+    fl, cfg = fi.flow, fi.cfg
+    users = []
+    for call, nid in fl.calls():
+        ct = fl.canon(call, nid)
+        m = method_call(ct, "update")
+        if not m or len(m[2]) != 1:
+            continue
+        src, recv = m[2][0], m[0]
+        if src[0] == "sub" and src[1] == P and recv[0] == "sub" and recv[1][0] == "attr" and recv[1][2] == "nodes" and recv[2] == src[2]:
+            e = elem_of(src[2])
+            if e and e[0] in ("elem", "key") and strip_wrappers(e[1]) in (("attr", recv[1][1], "nodes"), recv[1][1]):
+                users.append((call, nid, recv[1][1], src[2]))
+    if not users:
+        return None
+    call, unid, G, node = users[0]
+    lps = enclosing_loops(fi, unid)
+    if not lps:
+        return None
+    head = lps[0].id
+    # guards of the update: only `node in P`
+    extra_guards = []
+    for test, pol, gid in guards_of(fi, unid):
+        if gid == head:
+            continue
+        t = fl.canon(test, gid)
+        if not (pol and t[0] == "cmp" and t[1] == ("in",) and t[2] == (node, P)):
+            extra_guards.append(ast.unparse(test))
+    # default stores on the same node's attribute dict with a constant value
+    late = []
+    for n in cfg.nodes:
+        if n.kind == "stmt" and isinstance(n.ast, ast.Assign) and isinstance(n.ast.targets[0], ast.Subscript) and n.id in cfg.loops.get(head, set()):
+            na = node_attr(fl.canon(n.ast.targets[0], n.id))
+            if na and na[0] == G and na[1] == node and na[2][0] == "const":
+                after = n.id in cfg.reachable_from(unid, avoid={head}, edge_filter=lambda a_, b_, l_: l_ != "exc")
+                if after:
+                    late.append(na[2][1])
+    ok = not late and not extra_guards
+    if ok:
+        return [ob_ok(oid, fi, call, construct="per node: defaults, then attrs.update(%s[node]) for every node in %s" % (pname, pname), instance=fi.name + ":applied",
+                      reason="annotations written on a fragment atom override the defaults (weight 1, fragname ...)")]
+    return [ob_fail(oid, fi, call, construct="per node: attrs.update(%s[node])" % pname, instance=fi.name + ":applied",
+                    reason=("a default is written after the per-atom annotations (%s)" % late[0]) if late else
+                    ("the per-atom annotations are applied only under %s" % extra_guards[0]))]
+
+
 def prov_fragment_attrs(repo, tier="quick"):
     obs = []
     oid = "PROV.fragment-attrs"
@@ -1105,6 +1152,12 @@ def prov_fragment_attrs(repo, tier="quick"):
         need(pname in fi.params, "anchor vanished: %s has no parameter %s" % (fq, pname), fi)
         P = ("param", pname)
         sets = fl.calls_to("networkx.set_node_attributes")
+        if not sets:
+            # one pass over the nodes instead: attrs[name] = default ...; attrs.update(P[node]) for node in P
+            per_node = _fragment_attrs_per_node(fi, P, oid, pname)
+            if per_node is not None:
+                obs += per_node
+                continue
         need(sets, "anchor vanished: %s no longer uses nx.set_node_attributes" % fq, fi)
         user = []
         defaults = []
